@@ -267,14 +267,17 @@ async fn scenario(rng: &mut Rng, out: &mut Out, sidx: usize) {
                 let dest = if mv { 3 - row.room } else { row.room };
                 let mut p = Parameters::default();
                 p.add("id", row.id.clone()).unwrap();
-                let text = if mv { p.add("r", scn.room_ids[&dest].clone()).unwrap(); format!(r#"mutate {{ ns.E{}{{ id:$id room_id:$r name:$nm }} }}"#, row.ent) }
+                // (a mutation that only names another room is a move too, since fix 07628ab)
+                let room_only = mv && rng.chance(1, 3);
+                let text = if room_only { p.add("r", scn.room_ids[&dest].clone()).unwrap(); format!(r#"mutate {{ ns.E{}{{ id:$id room_id:$r }} }}"#, row.ent) }
+                           else if mv { p.add("r", scn.room_ids[&dest].clone()).unwrap(); format!(r#"mutate {{ ns.E{}{{ id:$id room_id:$r name:$nm }} }}"#, row.ent) }
                            else { format!(r#"mutate {{ ns.E{}{{ id:$id name:$nm }} }}"#, row.ent) };
-                p.add("nm", format!("upd-{}", out.n)).unwrap();
+                if !room_only { p.add("nm", format!("upd-{}", out.n)).unwrap(); }
                 let res = a.db.mutate_raw(&text, Some(p)).await;
                 coq = format!("CMut {} {} {} [{}]", defs, gn(A), gz(now), ment(head(row.ent, Some(dest), now, true, Some((row.room, row.author))), vec![]));
                 refused = res.is_err();
                 if res.is_ok() { scn.rows[i].author = A; scn.rows[i].room = dest; }
-                opname = if mv { "move" } else { "update" };
+                opname = if room_only { "move-room-only" } else if mv { "move" } else { "update" };
             }
             4 => { // update of a child through its unchanged parent
                 let parents: Vec<usize> = alive.iter().cloned().filter(|i| scn.rows[*i].children.iter().any(|c| scn.rows[*c].alive)).collect();
